@@ -28,7 +28,7 @@ def model_case(sysm, u, model):
         for (who, nm), v in u.oracles.get(k, {}).items():
             if z3.is_bool(v):
                 orc['%s.%s' % (who, nm)] = ev(v)
-        launches = [key for key, (g, f) in u.obs[k + 1].ev.get('launch', {}).items() if ev(g)]
+        launches = sorted(key for key, (g, f) in u.obs[k + 1].ev.get('launch', {}).items() if ev(g))     # dependencies are requested in declaration order
         spawns = [key for key, (g, f) in u.obs[k + 1].ev.get('spawn', {}).items() if ev(g)]
         sfails = [key for key, (g, f) in u.obs[k + 1].ev.get('spawn_failed', {}).items() if ev(g)]
         steps.append({'alt': list(name), 'oracles': {a: b for a, b in orc.items() if _relevant(name, a)}, 'launch': launches, 'spawn': spawns,
